@@ -101,6 +101,19 @@ def cases(draw, shallow_prob=None):
             break
     if not ops or ops[-1][0] != "run":
         ops.append(["run", []])
+    if draw(st.integers(0, 2)) == 0:
+        # file focus: some task reads input file 0 and the file is rewritten between two runs
+        i = draw(st.integers(0, n - 2))
+        keep = {k: v for k, v in init[i].items() if k in ("ver", "opts")}
+        init[i] = {**keep, "k": "readfile", "callee": n - 1, "file": 0}
+        if i > 0:
+            keep0 = {k: v for k, v in init[0].items() if k in ("ver", "opts")}
+            init[0] = {**keep0, "k": "call", "callee": i, "shift": 0, "add": 1}
+        mt += 1
+        ops = [["run", []], ["file", 0, draw(st.integers(31, 40)), mt], ["run", draw(st.lists(st.integers(0, 3), max_size=6))]] + \
+            [o for o in ops if not (o[0] == "install" and o[1] in (0, i))][:6]
+        if ops[-1][0] != "run":
+            ops.append(["run", []])
     return {"n": n, "init": init, "files": [draw(st.integers(0, 9)), draw(st.integers(0, 9))], "arg": draw(st.integers(0, 5)), "ops": ops}
 
 
@@ -119,7 +132,7 @@ def outcome(r):
     return (r.kind, str(r.payload))
 
 
-def run_history(ctx: Ctx, case, dryrun_hook=None):
+def run_history(ctx: Ctx, case, dryrun_hook=None, compare=True):
     d = ctx.fresh_dir("c02")
     paths = [os.path.join(d, "in0.txt"), os.path.join(d, "in1.txt")]
     for p, c in zip(paths, case["files"]):
@@ -161,7 +174,7 @@ def run_history(ctx: Ctx, case, dryrun_hook=None):
                     if info["pending_change"] and info["runs"] >= 2:
                         info["relevant_change"] = True
                 info["pending_change"] = False
-                if a != b:
+                if a != b and compare:
                     kinds = sorted({v["k"] for v in fam.variants})
                     under_catch = set()
                     for v in fam.variants:
